@@ -23,7 +23,55 @@ def _codec_replay(o, root):
             'output': f, 'confirmed': bool(f)}
 
 
+ROUTING_FUNCS = ('._get_event_handler/', '._get_namespace_handler/', 'Server._trigger_event/', 'Client._trigger_event/')
+
+
+def _routing_replay(o, root):
+    """counter-example search for a failed handler-resolution obligation: the real classes against the precedence of the
+    property statement, over a small exhaustive space of registries (bounded/routing.py)"""
+    env = dict(os.environ)
+    env.setdefault('VERIF_REPO_ROOT', '/repo')
+    p = subprocess.run(['/venv/bin/python', os.path.join(VERIF, 'bounded', 'routing.py')], capture_output=True, text=True, env=env, timeout=600)
+    if p.returncode != 0:
+        raise RuntimeError('bounded/routing.py failed: %s' % p.stderr[-1500:])
+    res = json.loads(p.stdout)
+    fn = o['name'].split('/')[0]
+    cls = fn.split('.')[1] if fn.count('.') >= 2 else ''
+    want = {'BaseServer': ('Server', 'AsyncServer'), 'BaseClient': ('Client', 'AsyncClient')}.get(cls, (cls,))
+    f = [x for x in res['failures'] if x['class'] in want] or res['failures']
+    return {'cmd': 'VERIF_REPO_ROOT=%s /venv/bin/python /verif/bounded/routing.py' % env['VERIF_REPO_ROOT'],
+            'output': {'cases_tried': res['checked'], 'failing_inputs': f[:3]}, 'confirmed': bool(f)}
+
+
+ACK_FUNCS = ('._handle_event_internal/', 'Client._handle_event/', 'Server.call/', 'Client.call/')
+
+
+def _ack_replay(o, root):
+    """counter-example search for a failed acknowledgement obligation: handler return values / acknowledged payloads against the
+    packing rule of the statement, on the real classes (bounded/acks.py)"""
+    env = dict(os.environ)
+    env.setdefault('VERIF_REPO_ROOT', '/repo')
+    p = subprocess.run(['/venv/bin/python', os.path.join(VERIF, 'bounded', 'acks.py')], capture_output=True, text=True, env=env, timeout=600)
+    if p.returncode != 0:
+        raise RuntimeError('bounded/acks.py failed: %s' % p.stderr[-1500:])
+    res = json.loads(p.stdout)
+    fn = o['name'].split('/')[0]
+    is_call = fn.endswith('.call')
+    is_async = 'Async' in fn
+    is_client = 'lient' in fn
+    def mine(x):
+        c = x['cls']
+        return (c.endswith('.call') == is_call) and (('Client' in c) == is_client) and (is_call or (c.startswith('Async') == is_async))
+    f = [x for x in res['failures'] if mine(x)]
+    return {'cmd': 'VERIF_REPO_ROOT=%s /venv/bin/python /verif/bounded/acks.py' % env['VERIF_REPO_ROOT'],
+            'output': {'cases_tried': res['checked'], 'failing_inputs': f[:3]}, 'confirmed': bool(f)}
+
+
 def find(name):
+    if any(k in name for k in ACK_FUNCS):
+        return _ack_replay
+    if any(k in name for k in ROUTING_FUNCS) and not name.startswith(('admin.', 'async_admin.')):
+        return _routing_replay
     if name.startswith('bounded/codec.') or name.startswith('bounded/msgpack.'):
         return _codec_replay
     return None
